@@ -12,6 +12,20 @@ CHECKS = {
         note="Trusted: CPython as reference semantics; probe functions as the only observable effects; horizon of 2 true answers per while-site and 400 probe calls.",
         ref="DESIGN.md 3 C05, 5b E2",
     ),
+    "C03": dict(
+        category="exploration",
+        technique="bounded-exhaustive enumeration of expression-tree derivations (every slot x slot x leaf composition, shape families, the whole stdlib corpus, converter-emitted trees), each round-tripped through the real unparser against ast.parse",
+        text="Every composition of (node kind, child slot) productions to depth 2 (quick: plus depth 3 hazard x all x hazard; thorough: depth 3 in full, depth 4 over the hazard set), all 756 lambda signatures, all call/slice/comparison/comprehension/dict shapes, every expression of the standard library and every tree convert() emits for a program pool are unparsed by the real expr_unparse and reparsed; the reparsed tree must be identical (every field compared). Exhaustive within the bounds; the space is enumerated, not sampled.",
+        note="Trusted: ast.parse as the definition of what a text denotes; ast.unparse only as a witness that a built tree is denotable; comparison ignores ctx/kind/positions and folds -<number>.",
+        ref="DESIGN.md 3 C03",
+    ),
+    "C04": dict(
+        category="exploration",
+        technique="bounded-exhaustive enumeration of literals (all strings over a hazard alphabet up to length 3/4 in 10 contexts, every code point 0..0x2FF, every byte, numeric constants x contexts, f-string shape product to nesting depth 2/3, all stdlib literals) through the real unparser against ast.parse",
+        text="All strings over an 18-character hazard alphabet (quotes, backslash, braces, LF, CR, NUL, surrogate, separators ...) up to length 3 (quick) / 4 (thorough) in 10 syntactic contexts, every code point 0..0x2FF and boundary points, every byte value, numeric/non-finite constants in 14 contexts, f-strings = conversion x spec shape x value kind nested to depth 2/3, and every literal of the standard library: the text must be one physical line and parse back to identical values and f-string structure.",
+        note="Trusted: ast.parse; a line break is LF or CR; below 3.12 the unparser's SyntaxError for a backslash inside an f-string is the documented refusal.",
+        ref="DESIGN.md 3 C04",
+    ),
 }
 
 def main():
